@@ -18,7 +18,6 @@ import (
 	"sort"
 	"strings"
 	realsync "sync"
-	"time"
 
 	"github.com/EdgeCast/vflow/ipfix"
 	netflow5 "github.com/EdgeCast/vflow/netflow/v5"
@@ -368,6 +367,7 @@ type pipeRun struct {
 	filter  []uint32
 	inband  bool // expectation depends on the order in which template and data are processed
 	mirror  bool
+	paced   bool // deliver one datagram at a time, waiting for quiescence in between
 }
 
 type pipeObs struct {
@@ -397,12 +397,11 @@ func drainMirror() []string {
 	var out []string
 	buf := make([]byte, 65536)
 	for {
-		mirrorLsn.SetReadDeadline(time.Now().Add(300 * time.Microsecond))
-		n, from, err := mirrorLsn.ReadFromUDP(buf)
-		if err != nil {
+		n, from, ok := recvNow(mirrorLsn, buf) // loopback delivery is complete when the sender's sendto returns
+		if !ok {
 			return out
 		}
-		out = append(out, from.IP.String()+"|"+string(buf[:n]))
+		out = append(out, from.String()+"|"+string(buf[:n]))
 	}
 }
 
@@ -420,6 +419,9 @@ func runPipe(r *pipeRun, out *pipeObs, mu *realsync.Mutex) {
 	conn := venv.Conn(port)
 	for _, d := range r.seq {
 		conn.Deliver(d.ip, 50000, d.wire)
+		if r.paced {
+			sched.Quiesce()
+		}
 	}
 	sched.Quiesce()
 	if conn.Pending() != 0 {
@@ -716,15 +718,17 @@ func c12Items(tier string) []pipeItem {
 		if p == ppIPFIX || p == ppV9 {
 			cache = preloadCache(p == ppV9)
 		}
-		orders := [][]string{{"dataA-long", "dataB-short", "dataA-mid"}, {"dataB-short", "dataA-long", "dataA-mid"}, {"dataA-mid", "dataA-long", "dataB-short"}}
+		orders := [][]string{{"dataA-long", "dataB-short", "dataA-mid"}, {"dataB-short", "dataA-long", "dataA-mid"}, {"dataA-mid", "dataA-long", "dataB-short"},
+			{"wrong-version", "dataA-long", "dataB-short"}, {"dataA-mid", "truncated", "dataA-long", "dataB-short"}}
 		for wi, w := range []int{1, 2} {
 			for oi, o := range orders {
-				if tier != "thorough" && wi == 1 && oi > 0 {
+				if tier != "thorough" && wi == 1 && oi > 0 && oi != 3 {
 					continue
 				}
 				out = append(out, pipeItem{fmt.Sprintf("mixed-sizes order%d", oi), pipeRun{proto: p, workers: w, seq: seqOf(al, o...), cache: cache}, b})
 			}
 		}
+		out = append(out, pipeItem{"paced traffic short-mid-long", pipeRun{proto: p, workers: 1, seq: seqOf(al, "dataB-short", "dataA-mid", "dataA-long", "dataA-mid"), cache: cache, paced: true}, b})
 		if p == ppIPFIX || p == ppV9 {
 			out = append(out, pipeItem{"in-band template", pipeRun{proto: p, workers: 2, seq: seqOf(al, "inband-tpl", "inband-data", "dataA-mid"), cache: cache, inband: true}, b})
 		}
@@ -739,7 +743,7 @@ func c13Items(tier string) []pipeItem {
 		al := alphabet(p)
 		cache := ""
 		var filter []uint32
-		classes := []string{"dataB-short", "wrong-version", "truncated"}
+		classes := []string{"dataB-short", "dataA-mid", "wrong-version", "truncated"}
 		switch p {
 		case ppIPFIX, ppV9:
 			cache = preloadCache(p == ppV9)
@@ -791,6 +795,7 @@ type shutItem struct {
 	inflight []string // datagrams delivered around the signal
 	after    int      // how many of them are delivered AFTER the signal
 	bound    int
+	shrink   bool // second cycle: the acknowledged template is re-announced with fewer fields (the dump shrinks)
 }
 
 // mainReplica is main()'s orchestration (vflow.go: start every protocol, wait for the signal,
@@ -861,6 +866,10 @@ func runShutdown(it shutItem, al map[string]pdgram, cacheFile string, out *shutO
 			for len(mq) > 0 {
 				o.restartPub = append(o.restartPub, string(<-mq))
 			}
+			if it.shrink {
+				conn.Deliver(al["template-short"].ip, 50000, al["template-short"].wire)
+				sched.Quiesce()
+			}
 		}
 		o.phase = fmt.Sprintf("cycle %d: traffic+signal", cycle)
 		set()
@@ -911,26 +920,27 @@ func c15Items(tier string) []shutItem {
 		if tier == "thorough" {
 			for _, w := range []int{1, 2} {
 				for _, cap := range []int{1000, 1} {
-					out = append(out, shutItem{"idle", p, w, cap, nil, 0, 3})
-					out = append(out, shutItem{"data before the signal", p, w, cap, []string{"dataB-short", "dataA-mid"}, 0, 2})
-					out = append(out, shutItem{"data around the signal", p, w, cap, []string{"dataB-short", "dataA-mid", "dataB-short"}, 2, 2})
+					out = append(out, shutItem{"idle", p, w, cap, nil, 0, 3, false})
+					out = append(out, shutItem{"data before the signal", p, w, cap, []string{"dataB-short", "dataA-mid"}, 0, 2, false})
+					out = append(out, shutItem{"data around the signal", p, w, cap, []string{"dataB-short", "dataA-mid", "dataB-short"}, 2, 2, false})
 					if flow {
-						out = append(out, shutItem{"template burst around the signal", p, w, cap, []string{"inband-tpl", "inband-data", "template", "dataB-short"}, 2, 2})
+						out = append(out, shutItem{"template burst around the signal", p, w, cap, []string{"inband-tpl", "inband-data", "template", "dataB-short"}, 2, 2, false})
 					}
 				}
 			}
 			continue
 		}
-		out = append(out, shutItem{"idle", p, 1, 1000, nil, 0, 2})
+		out = append(out, shutItem{"idle", p, 1, 1000, nil, 0, 2, false})
 		b := 1
 		if p == ppIPFIX || p == ppSFlow {
 			b = 2
 		}
-		out = append(out, shutItem{"data before the signal", p, 1, 1000, []string{"dataB-short", "dataA-mid"}, 0, b})
-		out = append(out, shutItem{"data around the signal", p, 1, 1, []string{"dataB-short", "dataA-mid", "dataB-short"}, 2, 1})
-		out = append(out, shutItem{"data around the signal", p, 2, 1000, []string{"dataB-short", "dataA-mid"}, 1, 1})
+		out = append(out, shutItem{"data before the signal", p, 1, 1000, []string{"dataB-short", "dataA-mid"}, 0, b, false})
+		out = append(out, shutItem{"data around the signal", p, 1, 1, []string{"dataB-short", "dataA-mid", "dataB-short"}, 2, 1, false})
+		out = append(out, shutItem{"data around the signal", p, 2, 1000, []string{"dataB-short", "dataA-mid"}, 1, 1, false})
 		if flow {
-			out = append(out, shutItem{"template burst around the signal", p, 2, 1000, []string{"inband-tpl", "inband-data", "template", "dataB-short"}, 2, 1})
+			out = append(out, shutItem{"template burst around the signal", p, 2, 1000, []string{"inband-tpl", "inband-data", "template", "dataB-short"}, 2, 1, false})
+			out = append(out, shutItem{"template re-announced shorter before the second stop", p, 1, 1000, nil, 0, 1, true})
 		}
 	}
 	return out
@@ -948,6 +958,8 @@ func c15Space(tier string) mck.Space {
 			// data for template 300 (announced by the "template" datagram of exporter A)
 			_, t1, _ := flowTemplates(it.proto == ppV9)
 			t := ref.Template{ID: 300, Fields: t1.Fields}
+			short := ref.Template{ID: 300, Fields: t1.Fields[:1]}
+			al["template-short"] = pdgram{"template-short", expA, (&ref.Msg{V9: it.proto == ppV9, Hdr: [5]uint32{1, 9, 9, 9, 9}, Sets: []ref.Set{{Kind: ref.SetTemplates, Templates: []ref.Template{short}}}}).Encode(nil)}
 			al["t1-data"] = pdgram{"t1-data", expA, (&ref.Msg{V9: it.proto == ppV9, Hdr: [5]uint32{1, 5, 6, 7, 8}, Sets: []ref.Set{{Kind: ref.SetData, TemplateID: 300, Records: []ref.Record{flowRec(t, 33)}}}}).Encode(map[uint16]ref.Template{300: t})}
 		}
 		cacheFile := filepath.Join(pipeTmpGet(), fmt.Sprintf("c15-%d.cache", idx0))
@@ -1010,6 +1022,7 @@ func c16Items(tier string) []pipeItem {
 		for _, w := range []int{1, 2} {
 			out = append(out, pipeItem{"mirroring on", pipeRun{proto: p, workers: w, seq: seqOf(al, "dataA-long", "dataB-short", "dataA-mid"), cache: cache, mirror: true}, b})
 		}
+		out = append(out, pipeItem{"mirroring on, paced traffic short-mid-long", pipeRun{proto: p, workers: 1, seq: seqOf(al, "dataB-short", "dataA-mid", "dataA-long", "dataA-mid"), cache: cache, mirror: true, paced: true}, b})
 	}
 	return out
 }
